@@ -53,10 +53,11 @@ func runHTTPS(c Case) (o obs, cfgErr error) {
 	for _, u := range c.Users {
 		users = append(users, httpproxy.ServerUserCredentials{Username: string(unhx(u.U)), Password: string(unhx(u.P))})
 	}
-	srv, err := (&httpproxy.ServerConfig{Users: users, EnableBasicAuth: c.Auth}).NewProxyServer()
+	srv, err := shared(c.y, fmt.Sprintf("https %v %s", c.Auth, usersField(c.Users)), (&httpproxy.ServerConfig{Users: users, EnableBasicAuth: c.Auth}).NewProxyServer)
 	if err != nil {
 		return o, err
 	}
+	o.y = c.y
 	sc := newScriptConn(chunkBytes(c.Chunks), locAddr(A{"4", "7f000001", 8080}))
 	req, err := srv.HandleStream(sc, zap.NewNop())
 	o.hasPC = req.PendingConn != nil
@@ -509,13 +510,17 @@ func runHTTPC(c Case) string {
 		return fmt.Sprintf("err:%s %s -", cls, hx(sc.out))
 	}
 	out := append([]byte(nil), sc.out...)
+	c.y.yield() // handshake complete: other connections may handshake before the tunnel is read
 	var stream []byte
 	buf := make([]byte, 700)
-	for {
-		n, err := cc.Read(buf)
+	for i := 0; ; i++ {
+		n, err := cc.Read(buf[:min(len(buf), 3+i*350)])
 		stream = append(stream, buf[:n]...)
 		if err != nil {
 			break
+		}
+		if i < 3 {
+			c.y.yield()
 		}
 	}
 	return fmt.Sprintf("ok %s %s", hx(out), hx(stream))
@@ -553,9 +558,101 @@ func evalHTTPC(c Case) (res result) {
 	return
 }
 
+// genInter: k = 2..4 connections (SOCKS5 server/client, HTTP CONNECT server/client, ss-none), each a genuine
+// handshake with early data from the far side, run in one process in a scripted order of turns.
+func genInter(r *common.Rng) Case {
+	k := r.Range(2, 4)
+	c := Case{Kind: "inter", Pin: !r.Chance(1, 4)}
+	// server objects are shared by the connections of a case that use the same configuration
+	for i := 0; i < k; i++ {
+		f := r.Fork(uint64(i))
+		var sub Case
+		for try := 0; ; try++ {
+			switch kk := f.Intn(12); {
+			case kk < 4:
+				sub = genHTTPC(f)
+				if sub.Srv != nil && sub.Srv.Valid && f.Chance(3, 4) { // the far side speaks first, coalesced with the 2xx head
+					sub.Srv.Status = 200
+					early := genEarly(f)
+					if len(early) == 0 {
+						early = []byte("220 far side speaks first\r\n")
+					}
+					sub.Srv.Early = hex.EncodeToString(early)
+					st := append([]byte(st200), early...)
+					if f.Bool() {
+						sub.Chunks = []string{hex.EncodeToString(st)}
+					} else {
+						sub.Chunks = fragment(f, st, []int{len(st200)})
+					}
+				}
+			case kk < 7:
+				sub = genHTTPS(f)
+				if sub.Kind == "https" {
+					sub.Act = "P"
+				}
+			case kk < 9:
+				sub = genS5SValid(f)
+				if sub.Kind == "s5s" {
+					sub.Act = "P"
+				}
+			case kk < 10:
+				sub = genS5C(f)
+			default:
+				sub = genNone(f)
+			}
+			if sub.Kind != "mkaddr" || try > 3 {
+				break
+			}
+		}
+		c.Sub = append(c.Sub, sub)
+	}
+	// turns: mostly "all handshakes first, then the reads", plus random orders
+	switch r.Intn(4) {
+	case 0:
+		for round := 0; round < 6; round++ {
+			for i := 0; i < k; i++ {
+				c.Order = append(c.Order, i)
+			}
+		}
+	case 1: // A handshake, B handshake (and everything of B), then A
+		c.Order = []int{0}
+		for i := 0; i < 8; i++ {
+			c.Order = append(c.Order, 1)
+		}
+	default:
+		for i := r.Range(k, 6*k); i > 0; i-- {
+			c.Order = append(c.Order, r.Intn(k))
+		}
+	}
+	return c
+}
+
 // probes: directed witnesses run first on every run.
 func probes() []Case {
 	var res []Case
+	// cross-connection state: tunnel A (HTTP CONNECT client, far side speaks first in the segment of the 200),
+	// then handshake B in the same process, then A is read
+	{
+		a := []byte("220 far side speaks first\r\n250 and then some more\r\n")
+		mk := func(early []byte, chunks ...[]byte) Case {
+			var ch []string
+			for _, x := range chunks {
+				ch = append(ch, hex.EncodeToString(x))
+			}
+			return Case{Kind: "httpc", Addr: A{"d", hex.EncodeToString([]byte("mail.example")), 25}, Chunks: ch,
+				Srv: &SrvScript{Status: 200, Early: hex.EncodeToString(early), Valid: true}}
+		}
+		full := append([]byte(st200), a...)
+		b := []byte("B-first")
+		for _, pin := range []bool{true, false} {
+			res = append(res,
+				Case{Kind: "inter", Pin: pin, Probe: "inter-httpc-A-then-B", Order: []int{0, 1, 1, 1, 1, 1, 1, 0},
+					Sub: []Case{mk(a, full[:len(st200)+27], full[len(st200)+27:]), mk(nil, []byte(st200))}},
+				Case{Kind: "inter", Pin: pin, Probe: "inter-httpc-both-speak-first", Order: []int{0, 1, 0, 1, 0, 1},
+					Sub: []Case{mk(a, full), mk(b, append([]byte(st200), b...))}},
+			)
+		}
+	}
 	// F5: CONNECT head and tunnel bytes in one segment / split inside the early data
 	head := []byte("CONNECT example.com:443 HTTP/1.1\r\nHost: example.com:443\r\n\r\n")
 	early := []byte("EARLYDATA-0123456789")
